@@ -1,5 +1,5 @@
 (* C06 — stream reads consume exactly what they return; the position is always valid. *)
-From BS Require Import Prims BitsCore Mutators Search Golomb Stream StreamProofs.
+From BS Require Import Prims BitsCore Mutators Search Golomb Stream StreamProofs StreamHistory.
 Open Scope Z_scope.
 
 Theorem C06_peek_leaves_stream_unchanged : forall s t, fst (peek_token s t) = s /\ snd (peek_token s t) = snd (read_token s t).
@@ -13,8 +13,28 @@ Proof. exact readlist_error_restores. Qed.
 Theorem C06_read_keeps_position_valid : forall s t, valid s -> valid (fst (read_token s t)).
 Proof. exact read_valid. Qed.
 
+(* the invariant over whole histories (msb0): every operation of the stream API - reads, peeks, list reads, positioning, find / rfind /
+   readto, and each BitStream mutator override - maps a valid stream to a valid stream; hence so does every finite sequence of them *)
+Theorem C06_every_operation_keeps_position_valid : forall s op, valid s -> valid (fst (sstep s op)).
+Proof. exact sstep_valid. Qed.
+Theorem C06_every_history_keeps_position_valid : forall ops s, valid s -> valid (srun s ops).
+Proof. exact srun_valid. Qed.
+Theorem C06_failing_operation_restores : forall s op, snd (sstep s op) = false ->
+  match op with
+  | ORead _ | OPeek _ | OReadlist _ | OPeeklist _ | OSetPos _ | OSetBytepos _ | OBytealign | OFind _ _ _ _ | ORfind _ _ _ _
+  | OInsert _ _ | OOverwrite _ _ | OOverwriteSelf _ | OSetitemInt _ _ | OSetitemSlice _ _ | ODelitemInt _ | ODelitemSlice _ | OReplace _ _ _ _ _ _ | OImul _ => fst (sstep s op) = s
+  | _ => True
+  end.
+Proof. exact failing_step_restores. Qed.
+Example C06_history_nonvacuous :
+  let s := srun (mkstream [true;false;true;true;false;false;true;false] 3) [OReadlist [TCount 2; TFixed KUint 3]; OInsert [true;true] None; OFind [true;true] None None false; OOverwriteSelf (Some 2)] in
+  (spos s, zlen (sbits s)) = (12, 12).
+Proof. vm_compute. reflexivity. Qed.
 Print Assumptions C06_peek_leaves_stream_unchanged.
 Print Assumptions C06_peeklist_leaves_stream_unchanged.
 Print Assumptions C06_failing_read_restores.
 Print Assumptions C06_failing_readlist_restores.
 Print Assumptions C06_read_keeps_position_valid.
+Print Assumptions C06_every_operation_keeps_position_valid.
+Print Assumptions C06_every_history_keeps_position_valid.
+Print Assumptions C06_failing_operation_restores.
